@@ -10,7 +10,9 @@
      Grid2D.from_mask, Mask2D.derive_grid.{all_false,unmasked,edge,border}, derive_mask.*, Grid2D.blurring_grid_from,
      Grid2D.padded_grid_from, OverSamplerUniform.over_sampled_grid, BorderRelocator.sub_grid, Mask2D.mask_centre,
      Mask2D.zoom_{centre,offset_pixels,offset_scaled,region,shape_native,mask_unmasked}, Array2D.zoomed_around_mask,
-     Grid2D.grid_2d_radial_projected_from (angle 0), Mask2D.resized_from, image_mesh.Overlay.image_plane_mesh_grid_from,
+     Grid2D.grid_2d_radial_projected_from (angle 0: [radial_projected]; any angle, given as the pair (cos, sin): [radial_projected_a]),
+     BorderRelocator.sub_border_grid / relocated_grid_from / relocated_mesh_grid_from, derive_grid.edge / border with C10's models of
+     the index lists ([edge_sel], [border_sel]), Mask2D.resized_from / rescaled_from, image_mesh.Overlay.image_plane_mesh_grid_from,
      the geometry of image_mesh.Hilbert (hilbert.image_and_grid_from), Mesh2DRectangular.overlay_grid + MapperRectangular,
      Imaging.apply_mask / apply_noise_scaling / trimmed_after_convolution_from, SimulatorImaging.via_image_from,
      preprocess.noise_map_with_signal_to_noise_limit_from.
@@ -20,6 +22,7 @@
    ("rel_..." below never mentions an origin) and the origin is added at the end.  No proofs here. *)
 From Coq Require Import ZArith List Bool QArith.
 From PAV Require Import Base.Res Base.Check Base.NumOps.
+From PAV Require Model.C10.
 Import ListNotations.
 Local Open Scope Z_scope.
 
@@ -75,6 +78,9 @@ Definition zoom_region (m : mask) : option (Z * Z * Z * Z) :=      (* y0, y1 + 1
 Definition zoom_shape (m : mask) : option (Z * Z) :=
   match zoom_region m with Some (a, b, c, d) => Some (b - a, d - c) | None => None end.
 Definition gather {A} (d : A) (l : list A) (idx : list nat) : list A := map (fun i => nth i l d) idx.
+(* derive_indexes.edge_slim / border_slim: C10's models of mask_2d_util.edge_1d_indexes_from / border_slim_indexes_from *)
+Definition edge_sel (m : mask) : list nat := map Z.to_nat (Model.C10.edge_slim m).
+Definition border_sel (m : mask) : list nat := map Z.to_nat (Model.C10.border_slim m).
 
 Section Model.
   Context {O : NumOps}.
@@ -249,6 +255,26 @@ Section Model.
     end.
   Definition radial_projected_from (M : mask2d) (c : pt) (shape_slim : Z) (remove_centre : bool) : list pt :=
     radial_projected (mask_extent M) c (mps M) shape_slim remove_centre.
+  (* the same at ANY angle.  transform_grid_2d_to_reference_frame(grid, centre, angle):
+       shifted = p - centre; radius = sqrt(shifted_y^2 + shifted_x^2); theta = arctan2(shifted_y, shifted_x) - radians(angle);
+       (radius * sin theta, radius * cos theta)
+     Every projected point has shifted_y = 0 and shifted_x >= 0, so theta is the SAME number for all of them; the model takes
+     the pair [cssn] = (cos theta, sin theta) as a parameter (nothing is assumed about it here).  Then
+     transform_grid_2d_from_reference_frame(grid, centre, angle = 0.0) with cos 0 = 1, sin 0 = 0:
+       y = (x' * 0 + y' * 1) + centre_y,  x = (x' * 1 + -(y' * 0)) + centre_x *)
+  Definition frame_a (cssn c p : pt) : pt :=
+    let s := psub p c in
+    let radius := sqrtT O (add O (sq (fst s)) (sq (snd s))) in
+    let y1 := mul O radius (snd cssn) in let x1 := mul O radius (fst cssn) in
+    (add O (add O (mul O x1 zero) (mul O y1 one)) (fst c), add O (add O (mul O x1 one) (opp O (mul O y1 zero))) (snd c)).
+  Definition radial_projected_a (cssn : pt) (e : ext) (c ps : pt) (shape_slim : Z) (remove_centre : bool) : list pt :=
+    let n := radial_shape e c ps shape_slim in
+    let g := map (fun r => frame_a cssn c (add O zero (fst c), r)) (radii_from (Z.to_nat n) (snd c) (snd (radial_scale e c ps))) in
+    if remove_centre then tl g else g.
+  Definition radial_projected_from_a (cssn : pt) (M : mask2d) (c : pt) (shape_slim : Z) (remove_centre : bool) : list pt :=
+    radial_projected_a cssn (mask_extent M) c (mps M) shape_slim remove_centre.
+  (* BorderRelocator.sub_border_grid = sub_grid[sub_border_slim] *)
+  Definition sub_border_grid (M : mask2d) (subs : list Z) (idx : list nat) : list pt := gather zpt (over_sampled_grid M subs) idx.
 
   (* image_mesh.Overlay.image_plane_mesh_grid_from; [oc] is the origin handed to grid_pixel_centres_2d_slim_from *)
   Definition overlay_with (oc : pt) (M : mask2d) (sy sx : Z) : res (list pt) :=
@@ -364,15 +390,26 @@ Section Model.
         Some (div O (add O (fst a) (fst b)) two, div O (add O (snd a) (snd b)) two)
     | None => None
     end.
-  (* radial projection: x_i = c_x + i * step, all at y = c_y; computed from the centre's position relative to the origin *)
-  Definition rel_radial (H W : Z) (ps r : pt) (shape_slim : Z) (remove_centre : bool) : list pt :=
+  (* radial projection: the i-th point lies at distance i * step from the centre in the direction (sin, cos) of the angle;
+     everything is computed from the centre's position [r] relative to the origin *)
+  Definition rel_radial_scale (H W : Z) (ps r : pt) : T * T :=
     let hy := div O (mul O (ofZ O H) (fst ps)) two in let hx := div O (mul O (ofZ O W) (snd ps)) two in
     let dpx := sub O hx (snd r) in let dpy := sub O hy (fst r) in let dnx := add O (snd r) hx in let dny := add O (fst r) hy in
     let sd := maxT (maxT (maxT dpx dpy) dnx) dny in
-    let step := if eqb O sd dpy || eqb O sd dny then fst ps else snd ps in
-    let n := if shape_slim =? 0 then trunc (div O sd step) + 1 else shape_slim in
-    let g := map (fun i => (fst r, add O (snd r) (mul O (ofZ O i) step))) (zrange n) in
+    (sd, if eqb O sd dpy || eqb O sd dny then fst ps else snd ps).
+  Definition rel_radial_a (cssn : pt) (H W : Z) (ps r : pt) (shape_slim : Z) (remove_centre : bool) : list pt :=
+    let sp := rel_radial_scale H W ps r in
+    let n := if shape_slim =? 0 then trunc (div O (fst sp) (snd sp)) + 1 else shape_slim in
+    let g := map (fun i => let rho := mul O (ofZ O i) (snd sp) in
+                           (add O (fst r) (mul O rho (snd cssn)), add O (snd r) (mul O rho (fst cssn)))) (zrange n) in
     if remove_centre then tl g else g.
+  Definition rel_radial := rel_radial_a (one, zero).          (* angle 0: x_i = c_x + i * step, all at y = c_y *)
+  (* centre of the bounding box in pixel units: Mask2D.zoom_centre *)
+  Definition rel_zoom_centre (m : mask) : option pt :=
+    match bbox m with
+    | Some (y0, y1, x0, x1) => Some (div O (ofZ O (y0 + y1)) two, div O (ofZ O (x0 + x1)) two)
+    | None => None
+    end.
   (* overlay, origin-free *)
   Definition rel_overlay (m : mask) (ps : pt) (sy sx : Z) : res (list pt) :=
     let H := rows m in let W := cols m in
@@ -442,6 +479,9 @@ Section Reloc.
   (* BorderRelocator.relocated_grid_from(grid): border_grid = grid[sub_border_slim] *)
   Definition relocated_grid_from (sub_border_slim : list nat) (g : list (@pt O)) : list (@pt O) :=
     relocate g (gather zpt g sub_border_slim).
+  (* BorderRelocator.relocated_mesh_grid_from(grid, mesh_grid): the mesh is relocated against the border of the DATA grid *)
+  Definition relocated_mesh_grid_from (sub_border_slim : list nat) (g mesh : list (@pt O)) : list (@pt O) :=
+    relocate mesh (gather zpt g sub_border_slim).
 End Reloc.
 
 (* ====================================================================== correspondence cases (exact rationals) *)
@@ -460,7 +500,8 @@ Definition qext_eqb (a b : Q * Q * Q * Q) : bool :=
   Qeq_bool a0 b0 && Qeq_bool a1 b1 && Qeq_bool a2 b2 && Qeq_bool a3 b3.
 
 Inductive gop :=
-| GFromMask | GAllFalse | GSel (idx : list nat) | GDerived (bm : mask) | GPadded (kh kw : Z) | GOver (subs : list Z)
+| GFromMask | GAllFalse | GEdge | GBorder | GSel (idx : list nat) | GDerived (bm : mask) | GPadded (kh kw : Z) | GOver (subs : list Z)
+| GOverSel (subs : list Z) (idx : list nat)
 | GRadial (c : qpt) (shape_slim : Z) (remove_centre : bool) | GOverlay (sy sx : Z)
 | GHilbertImage (n : Z) | GHilbertCurve (curve : list qpt) (radius : Q)
 | GScaledOfPixels (pix : list qpt) | GScaledOfPixelCentres (pix : list qpt) | GSubtracted (off : qpt).
@@ -473,9 +514,12 @@ Definition gop_model (op : gop) (M : QM) : res (list qpt) :=
   | GFromMask => Ok (from_mask M)
   | GAllFalse => Ok (derive_grid_all_false M)
   | GSel idx => Ok (derive_grid_sel (fun _ => idx) M)
+  | GEdge => Ok (derive_grid_sel edge_sel M)
+  | GBorder => Ok (derive_grid_sel border_sel M)
   | GDerived bm => Ok (blurring_grid_from (fun _ => bm) M)
   | GPadded kh kw => Ok (padded_grid_from M kh kw)
   | GOver subs => Ok (over_sampled_grid M subs)
+  | GOverSel subs idx => Ok (sub_border_grid M subs idx)
   | GRadial c ss rm => Ok (radial_projected_from M c ss rm)
   | GOverlay sy sx => overlay M sy sx
   | GHilbertImage n => Ok (hilbert_image_grid M n)
@@ -490,9 +534,12 @@ Definition gop_spec (op : gop) (M : QM) : res (list qpt) :=
   | GFromMask => Ok (shift o (rel_grid m ps))
   | GAllFalse => Ok (shift o (rel_grid (all_false H W) ps))
   | GSel idx => Ok (gather (@zpt QOps) (shift o (rel_grid m ps)) idx)
+  | GEdge => Ok (gather (@zpt QOps) (shift o (rel_grid m ps)) (edge_sel m))
+  | GBorder => Ok (gather (@zpt QOps) (shift o (rel_grid m ps)) (border_sel m))
   | GDerived bm => Ok (shift o (rel_grid bm ps))
   | GPadded kh kw => Ok (shift o (rel_grid (all_false (H + kh - 1) (W + kw - 1)) ps))
   | GOver subs => Ok (shift o (rel_over m ps subs))
+  | GOverSel subs idx => Ok (gather (@zpt QOps) (shift o (rel_over m ps subs)) idx)
   | GRadial c ss rm => Ok (shift o (rel_radial H W ps (psub c o) ss rm))
   | GOverlay sy sx => rshift o (rel_overlay m ps sy sx)
   | GHilbertImage n => Ok (shift o (rel_grid (all_false n n) ps))
@@ -531,18 +578,13 @@ Definition pop_model (op : pop) (M : QM) : option qpt :=
   | PZoomCentre => zoom_centre M
   | PZoomOffsetPixels => zoom_offset_pixels M
   end.
-Definition box_centre_px (m : mask) : option qpt :=
-  match bbox m with
-  | Some (y0, y1, x0, x1) => Some (Qred (inject_Z (y0 + y1) / 2), Qred (inject_Z (x0 + x1) / 2))
-  | None => None
-  end.
 Definition pop_spec (op : pop) (M : QM) : option qpt :=
   let m := mk M in let ps := mps M in let o := morg M in
   match op with
   | PMaskCentre => oshift o (rel_box_centre m ps)
   | PZoomOffsetScaled => rel_box_centre m ps
-  | PZoomCentre => box_centre_px m
-  | PZoomOffsetPixels => option_map (fun z => psub z (@centre_px QOps (rows m) (cols m))) (box_centre_px m)
+  | PZoomCentre => @rel_zoom_centre QOps m
+  | PZoomOffsetPixels => option_map (fun z => psub z (@centre_px QOps (rows m) (cols m))) (@rel_zoom_centre QOps m)
   end.
 
 Definition dop_model (op : dop) (data noise arg : QM) : geom * geom :=
@@ -564,8 +606,9 @@ Definition dop_spec (op : dop) (data noise arg : QM) : geom * geom :=
   | DSimulate p => (geom_of data, geom_of (if p then noise else data))
   end.
 
-Definition tol9 : Q := 1 # 1000000000.
-Definition qpt_close (tol : Q) (a b : qpt) : bool := Qabs_le_tol tol (fst a) (fst b) && Qabs_le_tol tol (snd a) (snd b).
+(* tolerances are per axis and RELATIVE to the scale of the case: the harness passes 1e-9 * (pixel scale of the axis) *)
+Definition qpt_close (tol : qpt) (a b : qpt) : bool := Qabs_le_tol (fst tol) (fst a) (fst b) && Qabs_le_tol (snd tol) (snd a) (snd b).
+Definition tol2 (tol : qpt) : qpt := ((2 * fst tol)%Q, (2 * snd tol)%Q).
 
 Inductive obs :=
 | KGrid (op : gop) (M : QM) (out : res (list qpt))
@@ -578,7 +621,10 @@ Inductive obs :=
 | KPixelFloats (M : QM) (pts : list qpt) (out : list qpt)          (* Geometry2D.grid_pixels_2d_from *)
 | KRect (sy sx : Z) (g : list qpt) (buffer : Q) (out_ps out_org : qpt) (out_mesh : list qpt) (out_map : list Z)
 | KDataset (op : dop) (data noise arg : QM) (out : geom * geom)
-| KReloc (idx : list nat) (g : list qpt) (out : list qpt).        (* BorderRelocator.relocated_grid_from; tolerance 1e-9 *)
+| KReloc (idx : list nat) (g : list qpt) (mesh : option (list qpt)) (tol : qpt) (out : list qpt)
+    (* BorderRelocator.relocated_grid_from (mesh = None) / relocated_mesh_grid_from (Some mesh); tolerance [tol] *)
+| KRadialA (M : QM) (c cssn : qpt) (shape_slim : Z) (remove_centre : bool) (tol : qpt) (out : list qpt).
+    (* Grid2D.grid_2d_radial_projected_from at any angle; [cssn] = (cos, sin) of the common theta as the doubles numpy returned *)
 
 Definition agree1 (k : obs) : bool :=
   match k with
@@ -597,7 +643,9 @@ Definition agree1 (k : obs) : bool :=
       | None => false
       end
   | KDataset op d n a out => prod_eqb geom_eqb geom_eqb (dop_model op d n a) out
-  | KReloc idx g out => list_eqb (qpt_close tol9) (@relocated_grid_from QOps idx g) out
+  | KReloc idx g mesh tol out =>
+      list_eqb (qpt_close tol) (match mesh with None => @relocated_grid_from QOps idx g | Some mg => @relocated_mesh_grid_from QOps idx g mg end) out
+  | KRadialA M c cssn ss rm tol out => list_eqb (qpt_close tol) (radial_projected_from_a cssn M c ss rm) out
   end.
 
 (* the origin-free closed forms accept the implementation's output (single origin) *)
@@ -617,7 +665,9 @@ Definition rel_ok1 (k : obs) : bool :=
       option_eqb (list_eqb Z.eqb) (@rel_rect_mapper QOps sy sx g b) (Some omap)
       && qg_eqb (shift oorg (rel_grid (all_false sy sx) ops)) omesh
   | KDataset op d n a out => prod_eqb geom_eqb geom_eqb (dop_spec op d n a) out
-  | KReloc idx g out => true
+  | KReloc idx g mesh tol out => true
+  | KRadialA M c cssn ss rm tol out =>
+      list_eqb (qpt_close tol) (shift (morg M) (rel_radial_a cssn (rows (mk M)) (cols (mk M)) (mps M) (psub c (morg M)) ss rm)) out
   end.
 
 
@@ -636,12 +686,13 @@ Definition gop_translated (d : qpt) (a b : gop) : bool :=
   | GSel i, GSel i' => list_eqb Nat.eqb i i'
   | GDerived m, GDerived m' => list_eqb (list_eqb Bool.eqb) m m'
   | GOver s, GOver s' => list_eqb Z.eqb s s'
+  | GOverSel s i, GOverSel s' i' => list_eqb Z.eqb s s' && list_eqb Nat.eqb i i'
   | GPadded a1 a2, GPadded b1 b2 | GOverlay a1 a2, GOverlay b1 b2 => (a1 =? b1)%Z && (a2 =? b2)%Z
   | GHilbertImage n, GHilbertImage n' => (n =? n')%Z
   | GHilbertCurve c r, GHilbertCurve c' r' => qg_eqb c c' && Qeq_bool r r'
   | GScaledOfPixels p, GScaledOfPixels p' | GScaledOfPixelCentres p, GScaledOfPixelCentres p' => qg_eqb p p'
   | GSubtracted f, GSubtracted f' => qpt_eqb f f'
-  | GFromMask, GFromMask | GAllFalse, GAllFalse => true
+  | GFromMask, GFromMask | GAllFalse, GAllFalse | GEdge, GEdge | GBorder, GBorder => true
   | _, _ => false
   end.
 Definition mop_same (a b : mop) : bool :=
@@ -680,8 +731,13 @@ Definition spec_ok (k : case) : bool :=
   | KDataset op da na aa out, KDataset op' da' na' aa' out' =>
       M_translated d da da' && M_translated d na na' && M_translated d aa aa'
       && prod_eqb geom_eqb geom_eqb (geom_shift d (fst out), geom_shift d (snd out)) out'
-  | KReloc idx g out, KReloc idx' g' out' =>
-      list_eqb Nat.eqb idx idx' && pts_translated d g g' && list_eqb (qpt_close (2 * tol9)) (@shift QOps d out) out'
+  | KReloc idx g mesh tol out, KReloc idx' g' mesh' tol' out' =>
+      list_eqb Nat.eqb idx idx' && pts_translated d g g' && qpt_eqb tol tol'
+      && match mesh, mesh' with None, None => true | Some a, Some b => pts_translated d a b | _, _ => false end
+      && list_eqb (qpt_close (tol2 tol)) (@shift QOps d out) out'
+  | KRadialA M c cssn ss rm tol out, KRadialA M' c' cssn' ss' rm' tol' out' =>
+      M_translated d M M' && qpt_eqb (@padd QOps c d) c' && qpt_eqb cssn cssn' && (ss =? ss')%Z && Bool.eqb rm rm' && qpt_eqb tol tol'
+      && list_eqb (qpt_close (tol2 tol)) (@shift QOps d out) out'
   | _, _ => false
   end.
 
